@@ -29,6 +29,7 @@ ASSUMPTIONS = ["scores and thresholds are finite floats (or +-inf thresholds), c
 
 
 import itertools
+import routes
 
 _MS = [list(c) for k in range(4) for c in itertools.combinations_with_replacement([0.0, 1.0, 2.0], k)]
 # exhaustive small scope: all multisets over 3 values with <= 3+3 elements x 4 configurations
@@ -92,7 +93,10 @@ def gen_one(rng, i, tier):
     return {"stream": stream, "pos": pos, "neg": neg, "ep": ep, "en": en, "sc": sc, "ec": ec,
             "sorted": rng.random() < 0.3, "ts": ts, "shape": shape, "dtype": dtype,
             "via": rng.choice(["ctor", "ctor", "from_labels"]),
-            "poslabel": rng.choice([1, 0, "a", 7])}
+            "poslabel": rng.choice([1, 0, "a", 7]),
+            # the object reaches the queries through an alternative route (swap twice, deep copy, pickle, as a bootstrap
+            # sample): harness/routes.py
+            "route": routes.pick(rng, 0.15) if dtype in ("float", "int", "f4") else None, "rseed": rng.randint(0, 2**31 - 1)}
 
 
 def nontrivial(inp):
@@ -117,6 +121,8 @@ def _tags(inp):
     if any(math.isinf(x) for x in inp["ts"]):
         t.append("inf-threshold")
     t.append("dtype=" + str(inp.get("dtype")))
+    if inp.get("route"):
+        t.append("route=" + inp["route"])
     if any(isinstance(x, float) and math.isinf(x) for x in inp["pos"] + inp["neg"]):
         t.append("inf-score")
     return tuple(t)
@@ -166,8 +172,23 @@ def build(inp) -> Case:
         mpos = [float(x) for x, l in zip(sco_arr.tolist(), lab_arr.tolist()) if l == pl]
         mneg = [float(x) for x, l in zip(sco_arr.tolist(), lab_arr.tolist()) if l != pl]
     else:
-        s = Scores(np.array(pos, dtype=npdt), np.array(neg, dtype=npdt), **kw)
+        pa_, na_ = np.array(pos, dtype=npdt), np.array(neg, dtype=npdt)
+        s = Scores(pa_, na_, **kw)
         mpos, mneg = pos, neg
+        if not srt:
+            # a second object built from reversed views of the same buffers: the constructor takes sorted COPIES, so
+            # neither the caller's arrays nor the first object may change
+            b_pa, b_na = routes.shared_views(Scores, pa_, na_, **kw)
+            if not (np.array_equal(pa_, b_pa, equal_nan=True) and np.array_equal(na_, b_na, equal_nan=True)):
+                pre.append(Issue("PROPFAIL", "cells", f"constructing Scores from views of the caller's arrays changed them: pos "
+                                 f"{b_pa.tolist()[:8]} -> {pa_.tolist()[:8]}, neg {b_na.tolist()[:8]} -> {na_.tolist()[:8]}",
+                                 "ctor/caller-array-modified"))
+    o_ep, o_en, o_sc, o_ec = inp["ep"], inp["en"], inp["sc"], inp["ec"]
+    if inp.get("route") and not has_inf:
+        r_ = routes.apply(s, inp["route"], inp.get("rseed", 0))
+        if r_ is not None:
+            s, mpos, mneg, o_ep, o_en, o_sc, o_ec = r_
+            srt = False
     tarr = np.array(inp["ts"], dtype=float).reshape(inp["shape"])
     cm = s.cm(tarr)
     mat = np.asarray(cm.matrix)
@@ -189,8 +210,8 @@ def build(inp) -> Case:
             if not (r[k] == ra[k] or (math.isnan(r[k]) and math.isnan(ra[k]))):
                 pre.append(Issue("PROPFAIL", "alias", f"{alias} != {name}", f"alias/{alias}"))
     ets = [emb(t) for t in inp["ts"]]
-    lines = [line("cm", pos=ql([emb(x) for x in mpos]), neg=ql([emb(x) for x in mneg]), ep=inp["ep"], en=inp["en"],
-                  sc=inp["sc"], ec=inp["ec"], sorted=int(srt), ts=ql(ets), icms=il(icms))]
+    lines = [line("cm", pos=ql([emb(x) for x in mpos]), neg=ql([emb(x) for x in mneg]), ep=o_ep, en=o_en,
+                  sc=o_sc, ec=o_ec, sorted=int(srt), ts=ql(ets), icms=il(icms))]
     # pointwise_cm on the labelled samples (any order, any label encoding)
     r = common.call(pointwise_cm, np.array(labels, dtype=object if isinstance(pl, str) else None),
                     np.array(allsc, dtype=npdt), tarr, pos_label=pl,
